@@ -5,6 +5,7 @@ import PestModel.Model.PStateDriver
 import PestModel.Model.ViewsDriver
 import PestModel.Model.GrammarDriver
 import PestModel.Model.UnicodeDriver
+import PestModel.Model.ReaderDriver
 
 open PestModel
 
@@ -25,4 +26,5 @@ def main (args : List String) : IO UInt32 := do
   | ["views"] => loop stdin stdout ViewsDriver.runLine; return 0
   | ["grammar"] => loop stdin stdout GrammarDriver.runLine; return 0
   | ["unicode"] => loop stdin stdout UnicodeDriver.runLine; return 0
+  | ["read"] => loop stdin stdout ReaderDriver.runLine; return 0
   | _ => IO.eprintln "usage: pestmodel <mode>"; return 2
